@@ -21,3 +21,29 @@ Proof. exact aq_flush. Qed.
 
 Example C12_ex : (length (layout 996 [repeat 1%Z 1000; repeat 2%Z 10]) <=? 1010 + 7 * 2)%nat = true.
 Proof. vm_compute. reflexivity. Qed.
+
+(* ---- which pages an ACK gives back (Model/PQAck.v: collectFreePages over the page headers; the model is run on
+   the real page headers and compared with what the implementation freed at every ACK of the campaign).
+   ps: for every event still referenced by the chain, the index of the page its header starts in
+   (non-decreasing); T: the writer's page; N: events ACKed afterwards. The ACK frees exactly the pages before
+   the page in which the last ACKed event starts: every freed page is fully ACKed, the writer's page is never
+   freed, and no page that could be freed under this rule is held back - so the pages held are those from the
+   last ACKed event's page on: un-ACKed events plus at most the page(s) of one ACKed event. ---- *)
+From VF Require Import PQAck PQAckProofs.
+Theorem C12_ack_frees_exactly : forall ps h T N,
+  mono ps -> (forall p, In p ps -> h <= p <= T) -> 1 <= N <= length ps ->
+  ack_pages ps h T N = (nth (N - 1) ps 0, false).
+Proof. exact ack_pages_spec. Qed.
+Print Assumptions C12_ack_frees_exactly.
+Theorem C12_ack_frees_only_acked_pages : forall ps h T N,
+  mono ps -> (forall p, In p ps -> h <= p <= T) -> 1 <= N <= length ps ->
+  let kept := fst (ack_pages ps h T N) in
+  h <= kept <= T /\ forall i, N - 1 <= i < length ps -> kept <= nth i ps 0.
+Proof. exact ack_frees_only_acked_pages. Qed.
+Theorem C12_ack_new_read_position : forall ps h T N,
+  mono ps -> (forall p, In p ps -> h <= p <= T) -> 1 <= N <= length ps ->
+  let kept := fst (ack_pages ps h T N) in
+  cnt_lt ps kept + ack_skips ps kept N = N /\ forall i, cnt_lt ps kept <= i < N -> nth i ps 0 = kept.
+Proof. exact ack_skips_spec. Qed.
+Example C12_ex_ack : ack_pages [0; 0; 0; 1; 1; 3; 3] 0 4 4 = (1, false) /\ ack_skips [0; 0; 0; 1; 1; 3; 3] 1 4 = 1.
+Proof. split; reflexivity. Qed.
